@@ -53,6 +53,81 @@ def error_preserving(prog, co, t):
     return ("param", 2) in leaves
 
 
+def transport_errors_rule(rep, prog, cfg):
+    """Protocol layer: every io::Error a transport operation reports in connect / receive / send* reaches the caller.  An error
+    that is matched away (`Err(e) if e.kind() == .. => 0`, `Err(_) => return Ok(None)`) or only logged turns a transport
+    failure into a clean close or a hang one layer up."""
+    from .C02 import conn_bodies
+    rule = "C08.transport-errors"
+    bodies = dict(conn_bodies(prog))
+    for nm in ("send", "send_list"):
+        for fl_, owner in (("blocking", "Connection"), ("async", "AsyncConnection")):
+            b0 = body_by_name(prog, "mpd_protocol::connection::%s::%s" % (owner, nm))
+            if len(b0) == 1:
+                best = None
+                for fb in family(prog, b0[0]):
+                    if any("io" in n and ("write" in n.rsplit("::", 1)[-1] or "flush" in n.rsplit("::", 1)[-1]) for bb, t in fb.calls() for n in callee_names(t)):
+                        best = fb if best is None or len(fb.blocks) > len(best.blocks) else best
+                if best is not None:
+                    bodies["%s/%s" % (fl_, nm)] = best
+    from .C10 import READS, READS_EXT
+    READS.bind(prog)
+    for hn in sorted(x for x in READS if x not in READS_EXT):
+        for hb in body_by_name(prog, hn):
+            bodies["helper/" + hn.rsplit("::", 1)[-1]] = hb
+    n = 0
+    for name, b in sorted(bodies.items()):
+        if b is None:
+            continue
+        fl = Flow(b)
+        origins = []
+        for i, l in enumerate(b.locals):
+            ty = l["ty"]
+            if not (ty.startswith("core::result::Result<") and ty.rstrip(">").endswith("std::io::error::Error")):
+                continue
+            defs = [s2 for _, _, s2 in b.stmts() if s2["k"] == "assign" and s2["place"]["l"] == i and not s2["place"]["p"]]
+            cdefs = [t for _, t in b.calls() if t["dest"]["l"] == i and not t["dest"]["p"]]
+            from_ready = any(d["rv"]["k"] == "use" and op_place(d["rv"]["op"]) is not None and any(isinstance(e, dict) and e.get("n") == "Ready"
+                                                                                                     for e in op_place(d["rv"]["op"])["p"]) for d in defs)
+            from_call = any(not any(x in ("core::ops::try_trait::Try::branch",) for x in callee_names(t)) and identity_through(t) is None for t in cdefs)
+            if from_ready or from_call:
+                origins.append(i)
+        for i in origins:
+            n += 1
+            derived, uses = fl.forward([i], through_call=lambda t, ai: error_preserving(prog, b, t))
+            # handed to `?` as a whole (possibly after an error-preserving map_err): all errors propagate
+            whole = {i}
+            grew = True
+            while grew:
+                grew = False
+                for _, _, s2 in b.stmts():
+                    if s2["k"] == "assign" and not s2["place"]["p"] and s2["rv"]["k"] == "use" and s2["place"]["l"] not in whole:
+                        pl = op_place(s2["rv"]["op"])
+                        if pl is not None and pl["l"] in whole and not pl["p"]:
+                            whole.add(s2["place"]["l"])
+                            grew = True
+                for _, t in b.calls():
+                    if t["args"] and op_local(t["args"][0]) in whole and t["dest"]["l"] not in whole and not t["dest"]["p"] \
+                            and any(x.endswith("Result::map_err") for x in callee_names(t)) and error_preserving(prog, b, t):
+                        whole.add(t["dest"]["l"])
+                        grew = True
+            ok = any("core::ops::try_trait::Try::branch" in callee_names(t) and t["args"] and op_local(t["args"][0]) in whole for _, t in b.calls()) \
+                and 0 in derived
+            if not ok:
+                # matched by hand: every Err binding must reach the return value
+                binds = []
+                for _, _, s2 in b.stmts():
+                    if s2["k"] == "assign" and s2["rv"]["k"] == "use" and not s2["place"]["p"]:
+                        pl = op_place(s2["rv"]["op"])
+                        if pl is not None and pl["l"] in derived and any(isinstance(e, dict) and e.get("n") == "Err" for e in pl["p"]):
+                            binds.append(s2["place"]["l"])
+                ok = bool(binds) and all(0 in fl.forward([x], through_call=lambda t, ai: error_preserving(prog, b, t))[0] for x in binds)
+            rep.check(ok, rule, "%s/%s io result _%d reaches the caller" % (cfg, name, i), b.loc(b.span),
+                      "an io::Error reported by the transport in %s does not reach the function's return value on every way it is handled "
+                      "(it is matched away, replaced by a value, or only logged)" % name)
+    rep.floor(rule, cfg + "/transport results", n, 6)
+
+
 def error_bindings(co, info):
     """For every awaited connection operation: (op, site, result local, [locals bound to its Err payload],
     whole-result locals)."""
@@ -168,6 +243,7 @@ def run(rep, progs, tier):
         "released). A7: no unaudited panic-capable construct in the loop functions and in Client::do_send / raw_command / "
         "raw_command_list; both channel failures map to CommandError::ConnectionClosed. NOT decided: that tokio wakes a "
         "receiver whose sender is dropped; behaviour under a transport that blocks forever.")
+    rep.rule("C08.transport-errors", "protocol layer: every io::Error of a transport operation reaches the caller of connect/receive/send")
     rep.rule("C08.events-optional", "the result of an event send never reaches a branch or the return value")
     rep.rule("C08.error-flow", "every connection error in the loop reaches a responder, a closing event or the return value")
     rep.rule("C08.who-gets-it", "with a responder in scope the error goes to that responder, otherwise to the closing event")
@@ -178,6 +254,7 @@ def run(rep, progs, tier):
     rep.trusted = ["rustc MIR construction", "mpdfacts exporter", "tokio drop semantics of oneshot/mpsc", "audited panic reasons (text)"]
     for cfg, prog in progs.items():
         one(rep, prog, cfg)
+        transport_errors_rule(rep, prog, cfg)
 
 
 def one(rep, prog, cfg):
